@@ -18,8 +18,9 @@ def canonPathKeepSlashes (p : Bytes) : Bytes := cleanPathMode false (lower p)
 
 /-! ### documented host rules -/
 
-/-- a pattern label matches a (canonical) request label: `*` or the same label, case-insensitively -/
-def LabelRule (p h : Bytes) : Prop := p = [cStar] ∨ lower p = h
+/-- a pattern label matches a (canonical) request label: `*` and the request label is not empty,
+    or the same label, case-insensitively -/
+def LabelRule (p h : Bytes) : Prop := (p = [cStar] ∧ h ≠ []) ∨ (p ≠ [cStar] ∧ lower p = h)
 
 /-- label lists of the same length, related label by label -/
 inductive LabelsRule : List Bytes → List Bytes → Prop
